@@ -502,6 +502,82 @@ func C16(c *core.Ctx) {
 	c.Decide(orderBad == "", "R16.3", "lock-order-rib-before-fib", "-", "FIB code never calls into the RIB (lock order RIB → FIB only)", "FIB code calls into the RIB at "+orderBad+" (RIB code calls the FIB while holding the RIB lock: opposite orders can deadlock)")
 	_ = token.ADD
 
+	// ---- R16.6 the state of a RIB readvertiser (its table of advertised routes) is touched
+	// from the RIB's callbacks, which run on the management thread (register / unregister)
+	// and on face goroutines (clean-up after a face is destroyed): every access holds the
+	// readvertiser's own lock, or else every call of the callbacks is made with the RIB
+	// lock held.
+	{
+		ribI := p.Named("fw/table", "RibReadvertise")
+		nAcc := 0
+		if ribI == nil {
+			c.Und("R16.6", "anchor:RibReadvertise", "-", "interface not found")
+		} else {
+			// (b) are the callbacks always invoked under the RIB lock?
+			underRib := true
+			nInv := 0
+			for _, fn := range p.FuncsIn(pkg) {
+				core.Instrs(fn, func(in ssa.Instruction) {
+					ci, ok := in.(ssa.CallInstruction)
+					if !ok || !ci.Common().IsInvoke() {
+						return
+					}
+					if nt, isN := ci.Common().Value.Type().(*types.Named); !isN || nt.Obj() != ribI.Obj() {
+						return
+					}
+					nInv++
+					h := held[fn][in]
+					if !h["W:RibTable.mutex"] {
+						underRib = false
+					}
+				})
+			}
+			for _, t := range p.Implementations(ribI) {
+				tpkg := t.Obj().Pkg().Path()
+				_, heldT := core.EntryLocks(p, tpkg)
+				st, isSt := t.Underlying().(*types.Struct)
+				if !isSt {
+					continue
+				}
+				shared := map[string]bool{}
+				for i := 0; i < st.NumFields(); i++ {
+					switch st.Field(i).Type().Underlying().(type) {
+					case *types.Map, *types.Slice:
+						shared[st.Field(i).Name()] = true
+					}
+				}
+				bad := ""
+				for _, fn := range p.FuncsIn(tpkg) {
+					if strings.HasSuffix(p.File(fn.Pos()), "_test.go") || strings.HasPrefix(fn.Name(), "New") {
+						continue
+					}
+					core.Instrs(fn, func(in ssa.Instruction) {
+						fa, ok := in.(*ssa.FieldAddr)
+						if !ok {
+							return
+						}
+						tn, fld := core.FieldAddrName(fa)
+						if tn != t.Obj().Name() || !shared[fld] {
+							return
+						}
+						nAcc++
+						own := false
+						for l := range heldT[fn][in] {
+							if strings.Contains(l, ":"+tn+".") {
+								own = true
+							}
+						}
+						if !own && !(underRib && nInv > 0) {
+							bad = tn + "." + fld + " in " + core.FuncName(fn) + " at " + c.Pos(in)
+						}
+					})
+				}
+				c.Decide(bad == "", "R16.6", "readvertiser-state-guarded:"+t.Obj().Name(), p.Pos(t.Obj().Pos()), "every access to the readvertiser's tables holds its own lock (or all callbacks run under the RIB lock)", "the readvertiser's table "+bad+" is accessed without the readvertiser's own lock, and the RIB does not make every callback with its lock held: rib/unregister on the management thread and the clean-up of a destroyed face on a face goroutine write the map at the same time (concurrent map writes crash the process)")
+			}
+			c.Floor("R16.6", "accesses to a readvertiser's tables", nAcc, 2)
+		}
+	}
+
 	// ---- R16.5 no two locks of the forwarder (tables, face table, link services, management
 	// readvertisers) are taken in opposite orders on two paths — calls through interfaces
 	// and through callbacks stored in struct fields included
